@@ -213,6 +213,8 @@ def run():
         for o in subgroups.count_obligations(prog, engs, fn, tier()):
             rep.add(o)
         rep.add(subgroups.sort_obligation(prog, engs, fn))
+        from obligations import path_kernels
+        path_kernels.is_prefix_of_obligation(rep, prog)
     guarded("sub-grouping", sub)
 
     # ------------------------------------------------------------------ header statistics
